@@ -102,3 +102,8 @@ package bundler
 //@   arith int
 //@   prop C17
 //@   ensures not-a-dot-segment: result != ".." && result != "."
+
+// C19 ("the imports listed for an input name the files that were bundled"): processScannedFiles may redirect an import
+// record to the package's "main" file (dual-package hazard). The metafile entry for that import is written from the
+// record AFTER this redirect, so the file it names is the file the bundle uses.
+//@ flow metafile-import-entry-follows-the-redirect C19: func=(*scanner).processScannedFiles ; in=bundler ; site=call Select ; when-arg=1:*MetafilePathStyle ; when-arg2=0:*s.results[call GetIndex(*.SourceIndex)].file.inputFile.Source.PrettyPaths ; scenario=metafile_dual_package_redirect ; arg-reads-after-store=0:ImportRecord.SourceIndex:*secondaryVisited*
